@@ -57,8 +57,11 @@ enum Ev {
 struct Case {
     lock: LockF,
     meta: MetaF,
-    /// a live authority that is not a contender (its files are the leftover): pid
+    /// a live process that is not a contender (its files are the leftover): pid
     bystander: Option<u64>,
+    /// the bystander is an authority (owns a guard); false = a live pid that holds nothing (a starter between its create
+    /// and its write, or a live pid named by a left-over meta.json)
+    bystander_guard: bool,
     cont: Vec<Contender>,
     /// the timer answers respect the grace assumption (true everywhere except the needs-grace witness)
     assume_grace: bool,
@@ -464,6 +467,8 @@ struct Take {
     /// the check that precedes this rename in the code was passed legitimately by this actor: its last re-read of the
     /// lock (stale) / read of the lock by its loop (corrupt) / read of the meta (stale meta) saw a file of a DEAD pid
     checked: bool,
+    /// compared with the model's ghost flag, but not a violation (see `publishing_over_non_authority`)
+    exempt: bool,
 }
 #[derive(Default)]
 struct Outcome {
@@ -566,7 +571,7 @@ fn run_case(c: &Case, policy: &mut dyn FnMut(usize, &[usize], &[u64]) -> Option<
         out.push(meta_file(&ripd::authority_meta_path(&data)));
         out.push(meta_file(&ripd::authority_meta_path(&data).with_extension("tmp")));
         if c.bystander.is_some() {
-            out.extend([21, 1, 0, 1]);
+            out.extend(if c.bystander_guard { [21, 1, 0, 1] } else { [0, 0, 0, 1] });
         }
         for i in 0..n {
             let v = ctl.view(i);
@@ -655,15 +660,19 @@ fn run_case(c: &Case, policy: &mut dyn FnMut(usize, &[usize], &[u64]) -> Option<
                                     20 => rdlock_ok[i] == Some(true),
                                     _ => false,
                                 };
-                                out.takes.push(Take { step: pos, pc, by: me, victim: v, meta: false, checked });
+                                out.takes.push(Take { step: pos, pc, by: me, victim: v, meta: false, checked, exempt: false });
                             }
                         }
                         creator = None;
                     }
                     if meta_before >= 2 && meta_after != meta_before {
                         let v = meta_before - 2;
+                        // a left-over meta.json naming a live pid that is NOT an authority (pid reuse / a hung process that lost
+                        // its lock) is rightly replaced when the new lock holder publishes its endpoint (write_meta, pc 4/5) and
+                        // removed when the lock holder releases (Drop, pc 6)
+                        let publishing_over_non_authority = (pc == 4 || pc == 5 || pc == 6) && c.bystander == Some(v) && !c.bystander_guard;
                         if v != me && is_alive(v, &alive, c) {
-                            out.takes.push(Take { step: pos, pc, by: me, victim: v, meta: true, checked: pc == 17 && stmeta_ok[i] == Some(true) });
+                            out.takes.push(Take { step: pos, pc, by: me, victim: v, meta: true, checked: pc == 17 && stmeta_ok[i] == Some(true), exempt: publishing_over_non_authority });
                         }
                     }
                 }
@@ -672,7 +681,7 @@ fn run_case(c: &Case, policy: &mut dyn FnMut(usize, &[usize], &[u64]) -> Option<
         out.events.push(ev);
         obs_now(&mut out, &alive, &frozen, &ctl);
         // independent oracle: live guards
-        let holders = (0..n).filter(|i| alive[*i] && ctl.view(*i).guard).count() + c.bystander.is_some() as usize;
+        let holders = (0..n).filter(|i| alive[*i] && ctl.view(*i).guard).count() + (c.bystander.is_some() && c.bystander_guard) as usize;
         if holders > out.max_holders {
             out.max_holders = holders;
         }
@@ -717,7 +726,7 @@ fn coq_call(c: &Call) -> String {
 fn coq_case(c: &Case, o: &Outcome) -> String {
     let mut procs: Vec<String> = vec![];
     if let Some(b) = c.bystander {
-        procs.push(format!("serving {b}"));
+        procs.push(if c.bystander_guard { format!("serving {b}") } else { format!("fresh {b} (DScript [])") });
     }
     for ct in &c.cont {
         let d = match &ct.drv {
@@ -747,7 +756,7 @@ fn coq_case(c: &Case, o: &Outcome) -> String {
     format!("{{| c_ag := {}; c_lock := {}; c_meta := {}; c_procs := [{}]; c_events := {}; c_expect := {} |}}", coq_bool(c.assume_grace), l, m, procs.join("; "), evs, coq_list_n(&exp))
 }
 fn case_json(c: &Case, evs: &[Ev]) -> serde_json::Value {
-    json!({"lock": format!("{:?}", c.lock), "meta": format!("{:?}", c.meta), "bystander": c.bystander, "assume_grace": c.assume_grace, "real_pids": c.real_pids,
+    json!({"lock": format!("{:?}", c.lock), "meta": format!("{:?}", c.meta), "bystander": c.bystander, "bystander_is_authority": c.bystander_guard, "assume_grace": c.assume_grace, "real_pids": c.real_pids,
            "contenders": c.cont.iter().map(|x| json!({"pid": x.pid, "driver": format!("{:?}", x.drv)})).collect::<Vec<_>>(),
            "events": evs.iter().map(|e| match e { Ev::Step(i, o) => json!(["step", i, o]), Ev::Crash(i) => json!(["crash", i]) }).collect::<Vec<_>>()})
 }
@@ -757,7 +766,7 @@ fn classify(o: &Outcome) -> Option<(String, String)> {
     if o.stuck {
         return Some(("a contender panicked or did not reach its next point".into(), "panic".into()));
     }
-    let first = o.takes.first();
+    let first = o.takes.iter().find(|t| !t.exempt);
     let root = |t: &Take| -> String {
         match (t.pc, t.meta, t.checked) {
             // the three known check-then-rename races: the check was passed on a dead pid's file, the file changed since
@@ -781,17 +790,26 @@ fn classify(o: &Outcome) -> Option<(String, String)> {
 }
 
 // ------------------------------------------------------------------ generators
-fn leftovers() -> Vec<(&'static str, LockF, MetaF, Option<u64>)> {
+/// (name, lock.json, meta.json, live bystander, the bystander is an authority)
+fn leftovers() -> Vec<(&'static str, LockF, MetaF, Option<u64>, bool)> {
     vec![
-        ("none", LockF::Absent, MetaF::Absent, None),
-        ("dead_lock", LockF::Rec(DEAD), MetaF::Absent, None),
-        ("dead_lock_meta", LockF::Rec(DEAD), MetaF::Rec(DEAD), None),
-        ("dead_half", LockF::Half(DEAD), MetaF::Absent, None),
-        ("dead_meta_only", LockF::Absent, MetaF::Rec(DEAD), None),
-        ("dead_lock_other_meta", LockF::Rec(DEAD), MetaF::Rec(DEAD2), None),
-        ("dead_half_dead_meta", LockF::Half(DEAD), MetaF::Rec(DEAD2), None),
-        ("live_lock_meta", LockF::Rec(BYST), MetaF::Rec(BYST), Some(BYST)),
-        ("live_lock", LockF::Rec(BYST), MetaF::Absent, Some(BYST)),
+        ("none", LockF::Absent, MetaF::Absent, None, true),
+        ("dead_lock", LockF::Rec(DEAD), MetaF::Absent, None, true),
+        ("dead_lock_meta", LockF::Rec(DEAD), MetaF::Rec(DEAD), None, true),
+        ("dead_half", LockF::Half(DEAD), MetaF::Absent, None, true),
+        ("dead_meta_only", LockF::Absent, MetaF::Rec(DEAD), None, true),
+        ("dead_lock_other_meta", LockF::Rec(DEAD), MetaF::Rec(DEAD2), None, true),
+        ("dead_half_dead_meta", LockF::Half(DEAD), MetaF::Rec(DEAD2), None, true),
+        ("live_lock_meta", LockF::Rec(BYST), MetaF::Rec(BYST), Some(BYST), true),
+        ("live_lock", LockF::Rec(BYST), MetaF::Absent, Some(BYST), true),
+        // MIXED leftovers: the two files name different processes
+        // a live authority that has not published its endpoint yet, next to the meta.json of its dead predecessor
+        ("live_lock_dead_meta", LockF::Rec(BYST), MetaF::Rec(DEAD), Some(BYST), true),
+        // the lock of a dead pid next to a meta.json that names a live pid which is no authority
+        ("dead_lock_live_meta", LockF::Rec(DEAD), MetaF::Rec(BYST), Some(BYST), false),
+        // a live starter between its exclusive create and its write (± the meta.json of a dead predecessor)
+        ("live_half", LockF::Half(BYST), MetaF::Absent, Some(BYST), false),
+        ("live_half_dead_meta", LockF::Half(BYST), MetaF::Rec(DEAD), Some(BYST), false),
     ]
 }
 fn scripts() -> Vec<Vec<Call>> {
@@ -843,7 +861,7 @@ fn explore(c: &Case, cap: usize, oracle_bits: u64, mut visit: impl FnMut(&Case, 
 
 fn random_case(r: &mut Rng) -> Case {
     let lo = leftovers();
-    let (_, lock, meta, by) = r.pick(&lo).clone();
+    let (_, lock, meta, by, by_guard) = r.pick(&lo).clone();
     let n = r.range(2, 4) as usize;
     let sc = scripts();
     let cont = (0..n)
@@ -856,7 +874,7 @@ fn random_case(r: &mut Rng) -> Case {
             },
         })
         .collect();
-    Case { lock, meta, bystander: by, cont, assume_grace: true, real_pids: false }
+    Case { lock, meta, bystander: by, bystander_guard: by_guard, cont, assume_grace: true, real_pids: false }
 }
 fn random_policy<'a>(r: &'a mut Rng, crash_pct: u64) -> impl FnMut(usize, &[usize], &[u64]) -> Option<Ev> + 'a {
     move |_pos, st, _pcs| {
@@ -899,7 +917,7 @@ fn corpus() -> Vec<(&'static str, Case, Vec<Ev>)> {
             evs.push(s(a));
         }
     }
-    v.push(("s13_two_cleaners", Case { lock: LockF::Rec(DEAD), meta: MetaF::Absent, bystander: None, cont: two(Drv::Server, Drv::Server), assume_grace: true, real_pids: false }, evs));
+    v.push(("s13_two_cleaners", Case { lock: LockF::Rec(DEAD), meta: MetaF::Absent, bystander: None, bystander_guard: true, cont: two(Drv::Server, Drv::Server), assume_grace: true, real_pids: false }, evs));
     // S13b: two loops saw the half-written lock of a dead creator for > 1 s; the second cleanup renames the first one's fresh lock
     let mut evs = vec![s(0), s(0), sg(0), s(1), s(1), sg(1)];
     for _ in 0..5 {
@@ -908,7 +926,7 @@ fn corpus() -> Vec<(&'static str, Case, Vec<Ev>)> {
     for _ in 0..5 {
         evs.push(s(1));
     }
-    v.push(("s13b_two_corrupt_cleaners", Case { lock: LockF::Half(DEAD), meta: MetaF::Absent, bystander: None, cont: two(Drv::Server, Drv::Server), assume_grace: true, real_pids: false }, evs));
+    v.push(("s13b_two_corrupt_cleaners", Case { lock: LockF::Half(DEAD), meta: MetaF::Absent, bystander: None, bystander_guard: true, cont: two(Drv::Server, Drv::Server), assume_grace: true, real_pids: false }, evs));
     // S13c: a cleaner read the dead authority's meta, a new authority published its own, the cleaner renames that one
     let mut evs = vec![];
     for _ in 0..9 {
@@ -918,14 +936,14 @@ fn corpus() -> Vec<(&'static str, Case, Vec<Ev>)> {
         evs.push(s(1));
     }
     evs.push(s(0));
-    v.push(("s13c_meta_of_live_authority", Case { lock: LockF::Rec(DEAD), meta: MetaF::Rec(DEAD), bystander: None, cont: two(Drv::Server, Drv::Server), assume_grace: true, real_pids: false }, evs));
+    v.push(("s13c_meta_of_live_authority", Case { lock: LockF::Rec(DEAD), meta: MetaF::Rec(DEAD), bystander: None, bystander_guard: true, cont: two(Drv::Server, Drv::Server), assume_grace: true, real_pids: false }, evs));
     // needs-grace witness (timing assumption broken on purpose: not an oracle case)
     let evs = vec![s(0), s(1), s(1), sg(1), s(1), s(1), s(1), s(1), s(1), s(0)];
-    v.push(("needs_grace", Case { lock: LockF::Absent, meta: MetaF::Absent, bystander: None, cont: two(Drv::Server, Drv::Server), assume_grace: false, real_pids: false }, evs));
+    v.push(("needs_grace", Case { lock: LockF::Absent, meta: MetaF::Absent, bystander: None, bystander_guard: true, cont: two(Drv::Server, Drv::Server), assume_grace: false, real_pids: false }, evs));
     // S23 (fixed): half-written lock of a dead creator next to a dead pid's meta.json: the server recovers in 14 steps
-    v.push(("s23_half_lock_dead_meta", Case { lock: LockF::Half(DEAD), meta: MetaF::Rec(DEAD2), bystander: None, cont: vec![Contender { pid: 101, drv: Drv::Server }], assume_grace: true, real_pids: false }, (0..14).map(|_| sg(0)).collect()));
+    v.push(("s23_half_lock_dead_meta", Case { lock: LockF::Half(DEAD), meta: MetaF::Rec(DEAD2), bystander: None, bystander_guard: true, cont: vec![Contender { pid: 101, drv: Drv::Server }], assume_grace: true, real_pids: false }, (0..14).map(|_| sg(0)).collect()));
     // plain recovery by one server, and a client cleaning for a later server
-    v.push(("recover_solo", Case { lock: LockF::Rec(DEAD), meta: MetaF::Rec(DEAD), bystander: None, cont: vec![Contender { pid: 101, drv: Drv::Server }], assume_grace: true, real_pids: false }, (0..16).map(|_| s(0)).collect()));
+    v.push(("recover_solo", Case { lock: LockF::Rec(DEAD), meta: MetaF::Rec(DEAD), bystander: None, bystander_guard: true, cont: vec![Contender { pid: 101, drv: Drv::Server }], assume_grace: true, real_pids: false }, (0..16).map(|_| s(0)).collect()));
     v
 }
 
@@ -1011,6 +1029,85 @@ fn real_server_loop(res: &mut RunResult) {
             }
         }
     }
+    // MIXED leftovers: the two files name different processes / a live pid without an endpoint.  The loop alone must
+    // refuse (a live pid holds the lock: nothing is renamed, whatever meta.json says) or recover leaving the live pid's file.
+    hk::set_liveness(BYST as u32, Some(PidLiveness::Alive));
+    for (lock, meta, refuses) in [
+        (LockF::Rec(BYST), MetaF::Rec(DEAD2), true),
+        (LockF::Rec(BYST), MetaF::Absent, true),
+        (LockF::Rec(BYST), MetaF::Rec(BYST), true),
+        (LockF::Rec(DEAD), MetaF::Rec(BYST), false),
+    ] {
+        let (_sc, data, ws) = fresh_store(&lock, &meta);
+        let (lock0, meta0) = (data_lock(&data), meta_file(&ripd::authority_meta_path(&data)));
+        let r = rt.block_on(async { tokio::time::timeout(Duration::from_secs(180), ripd::verif::acquire_authority_lock_with_recovery(&data, &ws)).await });
+        res.evaluations += 1;
+        res.oracle_checks += 1;
+        res.bump("kind=real_server_loop_mixed");
+        let (lock1, meta1) = (data_lock(&data), meta_file(&ripd::authority_meta_path(&data)));
+        let got_guard = matches!(&r, Ok(Ok(_)));
+        let ret = match &r { Ok(Ok(_)) => "Ok(guard)".to_string(), Ok(Err(e)) => format!("Err({e})"), Err(_) => "no return within 180 s".to_string() };
+        drop(r);
+        let lock_live = lock0 == 2 + BYST;
+        let meta_live = meta0 == 2 + BYST;
+        let bad = if lock_live && (lock1 != lock0 || got_guard) {
+            Some(("real_server_loop_takes_lock_of_live_pid", format!("lock.json carried the record of live pid {BYST} (code {lock0}); after the call it has code {lock1} and the call returned {ret}")))
+        } else if meta_live && meta1 != meta0 {
+            Some(("real_server_loop_takes_meta_of_live_pid", format!("meta.json named live pid {BYST}; after the call it has code {meta1} (returned {ret})")))
+        } else if refuses != !got_guard {
+            Some(("real_server_loop_does_not_recover_dead_leftover", format!("expected {} but the call returned {ret}", if refuses { "a refusal" } else { "the guard" })))
+        } else {
+            None
+        };
+        if let Some((class, detail)) = bad {
+            res.bump(&format!("finding={class}"));
+            res.oracle_violations.push(OracleViolation {
+                case_id: -1,
+                what: format!("the real server recovery loop (acquire_authority_lock_with_recovery), alone, pid 101, from the mixed leftover lock={lock:?} meta={meta:?} (pid {BYST} alive, {DEAD}/{DEAD2} dead, endpoint unreachable): {detail}"),
+                class: class.into(),
+                replay: json!({"real_loop": "server", "lock": format!("{lock:?}"), "meta": format!("{meta:?}"), "live_pids": [BYST, 101], "dead_pids": [DEAD, DEAD2], "schedule": ["write the leftover files", "ripd::verif::authority::set_liveness as listed", "call ripd::verif::acquire_authority_lock_with_recovery(data_dir, workspace_root) once, alone"]}),
+            });
+        }
+    }
+    // a live starter between its exclusive create and its write (empty lock.json, creator alive): the loop may clean it
+    // only after it has watched it for more than the grace period.  Verdict from an upper bound on the rename time (first
+    // sample that sees the file gone) against a lower bound on the first poll (taken before the call): load can only hide
+    // a violation, never fabricate one.
+    for meta in [MetaF::Absent, MetaF::Rec(DEAD2)] {
+        let lock = LockF::Half(BYST);
+        let (_sc, data, ws) = fresh_store(&lock, &meta);
+        let stop = Arc::new(std::sync::atomic::AtomicBool::new(false));
+        let (stop2, data2) = (stop.clone(), data.clone());
+        let t0 = Instant::now();
+        let sampler = std::thread::spawn(move || {
+            while !stop2.load(std::sync::atomic::Ordering::SeqCst) {
+                if data_lock(&data2) != 1 {
+                    return Some(t0.elapsed());
+                }
+                std::thread::sleep(Duration::from_millis(2));
+            }
+            None
+        });
+        let r = rt.block_on(async { tokio::time::timeout(Duration::from_secs(180), ripd::verif::acquire_authority_lock_with_recovery(&data, &ws)).await });
+        stop.store(true, std::sync::atomic::Ordering::SeqCst);
+        let gone = sampler.join().ok().flatten();
+        drop(r);
+        res.evaluations += 1;
+        res.oracle_checks += 1;
+        res.bump("kind=real_server_loop_live_starter");
+        if let Some(d) = gone {
+            if d < Duration::from_millis(1000) {
+                let class = "real_server_loop_cleans_invalid_lock_before_grace";
+                res.bump(&format!("finding={class}"));
+                res.oracle_violations.push(OracleViolation {
+                    case_id: -1,
+                    what: format!("the real server recovery loop, alone, found the still-empty lock.json of live starter {BYST} (meta={meta:?}) and renamed it {} ms after the call started — the 1 s grace period of a starter between create and write was not kept", d.as_millis()),
+                    class: class.into(),
+                    replay: json!({"real_loop": "server", "lock": "Half (empty lock.json, creator alive)", "meta": format!("{meta:?}"), "schedule": ["create an empty authority/lock.json", "call ripd::verif::acquire_authority_lock_with_recovery", "sample lock.json every 2 ms"]}),
+                });
+            }
+        }
+    }
     hk::set_thread_pid(None);
 }
 
@@ -1080,6 +1177,358 @@ fn real_client_loop(res: &mut RunResult) {
         }
     }
     reap_orphans(500);
+}
+
+// ------------------------------------------------------------------ the REAL client loop on a scripted clock
+/// One poll (= one iteration of the `loop` of ensure_local_authority_with_paths) of a scripted run: the harness plays the
+/// rest of the world while the client is parked at the `auth.read_meta` point that starts the iteration.
+#[derive(Clone, Debug, PartialEq)]
+struct PollIn {
+    /// scripted clock: milliseconds added before the iteration starts (on top of the loop's own back-off sleep)
+    advance: u64,
+    /// the file at the lock path: (instance, creating pid, record written)
+    lock: Option<(u64, u64, bool)>,
+    meta: MetaF,
+    reach: bool,
+    /// the lock is removed (by "somebody else") between the loop's exists() test and its read
+    vanish: bool,
+}
+#[derive(Clone, Debug)]
+struct GraceCase {
+    live: Vec<u64>,
+    polls: Vec<PollIn>,
+}
+#[derive(Default, Debug)]
+struct GraceOutcome {
+    /// per executed poll: the clock all its reads saw
+    now: Vec<u64>,
+    /// per executed poll: [act code, timed out, lock code after, meta code after]
+    obs: Vec<[u64; 4]>,
+    /// points / pings / spawns per poll (for the replay)
+    trace: Vec<Vec<String>>,
+    result: Option<String>,
+    broken: Option<String>,
+}
+
+struct ClientProc {
+    child: std::process::Child,
+    stdin: Option<std::process::ChildStdin>,
+    rx: std::sync::mpsc::Receiver<String>,
+}
+impl ClientProc {
+    fn start(rip: &Path, data: &Path, ws: &Path) -> std::io::Result<Self> {
+        use std::io::BufRead;
+        let mut child = std::process::Command::new(rip)
+            .env("RIP_VERIF_ENSURE", "1")
+            .env("RIP_DATA_DIR", data)
+            .env("RIP_WORKSPACE_ROOT", ws)
+            .stdin(std::process::Stdio::piped())
+            .stdout(std::process::Stdio::piped())
+            .stderr(std::process::Stdio::null())
+            .spawn()?;
+        let stdin = child.stdin.take();
+        let out = child.stdout.take().expect("stdout");
+        let (tx, rx) = std::sync::mpsc::channel();
+        std::thread::spawn(move || {
+            for line in std::io::BufReader::new(out).lines() {
+                match line {
+                    Ok(l) => {
+                        if tx.send(l).is_err() {
+                            break;
+                        }
+                    }
+                    Err(_) => break,
+                }
+            }
+        });
+        Ok(ClientProc { child, stdin, rx })
+    }
+    /// next line of the driver; generous watchdog (lock step: the client only ever does one file-system call per line)
+    fn line(&mut self) -> Option<String> {
+        self.rx.recv_timeout(Duration::from_secs(180)).ok()
+    }
+    fn send(&mut self, cmd: &str) {
+        use std::io::Write;
+        if let Some(i) = self.stdin.as_mut() {
+            let _ = writeln!(i, "{cmd}");
+            let _ = i.flush();
+        }
+    }
+    fn stop(mut self) {
+        drop(self.stdin.take()); // EOF: the driver exits
+        if wait_child(&mut self.child, 20).is_none() {
+            let _ = self.child.kill();
+            let _ = self.child.wait();
+        }
+    }
+}
+
+fn set_grace_files(data: &Path, ws: &Path, p: &PollIn) {
+    let lp = ripd::authority_lock_path(data);
+    let _ = std::fs::remove_file(&lp);
+    if let Some((_, owner, written)) = p.lock {
+        write_lock_file(data, &if written { LockF::Rec(owner) } else { LockF::Half(owner) }, ws);
+    }
+    let mp = ripd::authority_meta_path(data);
+    let _ = std::fs::remove_file(&mp);
+    write_meta_file(data, &p.meta, ws);
+}
+
+/// run the real client loop through the scripted polls
+fn run_grace_case(rip: &Path, c: &GraceCase) -> GraceOutcome {
+    let (_sc, data, ws) = fresh_store(&LockF::Absent, &MetaF::Absent);
+    let mut out = GraceOutcome::default();
+    let mut cp = match ClientProc::start(rip, &data, &ws) {
+        Ok(c) => c,
+        Err(e) => {
+            out.broken = Some(format!("could not start the scripted client: {e}"));
+            return out;
+        }
+    };
+    // every pid of the script gets a scripted liveness answer
+    let mut pids: Vec<u64> = vec![DEAD, DEAD2, BYST];
+    for p in &c.polls {
+        if let Some((_, o, _)) = p.lock {
+            pids.push(o);
+        }
+        if let MetaF::Rec(m) = p.meta {
+            pids.push(m);
+        }
+    }
+    pids.sort();
+    pids.dedup();
+    let parse = |l: &str| -> (String, String, u64) {
+        let w: Vec<&str> = l.split_whitespace().collect();
+        let clock = w.last().and_then(|x| x.parse().ok()).unwrap_or(0);
+        (w.first().unwrap_or(&"").to_string(), w.get(1).unwrap_or(&"").to_string(), clock)
+    };
+    let mut line = cp.line();
+    let mut first = true;
+    'polls: for p in &c.polls {
+        // the client is parked at the point that starts an iteration
+        let Some(l) = line.clone() else {
+            out.broken = Some("the scripted client did not reach its next point within 180 s".into());
+            break;
+        };
+        let (kind, name, clock) = parse(&l);
+        if kind == "result" {
+            break;
+        }
+        if !(kind == "point" && name == "auth.read_meta") {
+            out.broken = Some(format!("expected the start of an iteration, got `{l}`"));
+            break;
+        }
+        set_grace_files(&data, &ws, p);
+        if first {
+            for pid in &pids {
+                cp.send(&format!("live {pid} {}", if c.live.contains(pid) { "alive" } else { "dead" }));
+            }
+            first = false;
+        }
+        cp.send(&format!("advance {}", p.advance));
+        cp.send("go");
+        out.now.push(clock + p.advance);
+        let (mut act, mut timeout) = (0u64, 0u64);
+        let mut tr = vec![];
+        let mut in_cleanup = false;
+        // the next `auth.read_meta` belongs to a cleanup function (stale: after its lock rename; corrupt: when a meta.json
+        // exists), not to the next iteration
+        let mut inner_read_meta = false;
+        let mut vanished = false;
+        loop {
+            line = cp.line();
+            let Some(l) = line.clone() else {
+                out.broken = Some("the scripted client did not reach its next point within 180 s".into());
+                out.trace.push(tr);
+                break 'polls;
+            };
+            let (kind, name, clock) = parse(&l);
+            if kind != "result" && clock != *out.now.last().unwrap() && !(kind == "point" && name == "auth.read_meta") {
+                out.broken = Some(format!("the clock moved inside an iteration: `{l}`, expected {}", out.now.last().unwrap()));
+            }
+            match (kind.as_str(), name.as_str()) {
+                ("point", "auth.read_meta") if !inner_read_meta => break, // next iteration
+                ("point", "auth.read_meta") => inner_read_meta = false,
+                ("point", "auth.stale.before_rename") => inner_read_meta = true,
+                ("point", "auth.corrupt.before_meta_exists") => inner_read_meta = ripd::authority_meta_path(&data).exists(),
+                ("result", ok) => {
+                    if ok == "ok" {
+                        act = 1;
+                    } else if l.contains("timed out waiting for local authority") {
+                        timeout = 1;
+                    } else {
+                        out.broken = Some(format!("the client loop returned an error the model does not know: {l}"));
+                    }
+                    out.result = Some(l.clone());
+                    break;
+                }
+                ("point", "auth.stale.before_exists") => {
+                    act = 3;
+                    in_cleanup = true;
+                }
+                ("point", "auth.corrupt.before_exists") => {
+                    act = 5;
+                    in_cleanup = true;
+                }
+                ("point", "auth.read_lock") if !in_cleanup && p.vanish && !vanished => {
+                    let _ = std::fs::remove_file(ripd::authority_lock_path(&data));
+                    vanished = true;
+                }
+                ("ping", _) => cp.send(&format!("reach {}", p.reach as u64)),
+                ("spawn", _) => act = 7,
+                _ => {}
+            }
+            tr.push(format!("{kind} {name}"));
+            cp.send("go");
+        }
+        // a cleanup "cleaned" iff the lock it found is gone (lock step: nobody else touched it)
+        let lock_after = data_lock(&data);
+        if (act == 3 || act == 5) && lock_after == 0 {
+            act += 1;
+        }
+        out.obs.push([act, timeout, lock_after, meta_file(&ripd::authority_meta_path(&data))]);
+        out.trace.push(tr);
+        if out.result.is_some() || out.broken.is_some() {
+            break;
+        }
+    }
+    cp.stop();
+    out
+}
+
+fn coq_grace_case(c: &GraceCase, o: &GraceOutcome) -> String {
+    let mut now = 0u64;
+    let polls = c.polls.iter().enumerate().map(|(i, p)| {
+        // polls the loop never ran (it had returned) get a clock that keeps increasing
+        now = o.now.get(i).copied().unwrap_or(now + p.advance + 20);
+        let lock = match p.lock {
+            None => "None".to_string(),
+            Some((inst, owner, w)) => format!("(Some {{| lf_inst := {inst}; lf_owner := {owner}; lf_written := {} |}})", coq_bool(w)),
+        };
+        let meta = match &p.meta {
+            MetaF::Absent => "MAbsent".to_string(),
+            MetaF::Rec(m) => format!("(MRec {m})"),
+        };
+        format!("{{| pi_now := {now}; pi_lock := {lock}; pi_meta := {meta}; pi_reach := {}; pi_vanish := {} |}}", coq_bool(p.reach), coq_bool(p.vanish))
+    }).collect::<Vec<_>>();
+    let exp: Vec<u64> = o.obs.iter().flat_map(|x| x.iter().copied()).collect();
+    format!("{{| c_table := full_table; c_live := {}; c_polls := [{}]; c_expect := {} |}}", coq_list_n(&c.live), polls.join("; "), coq_list_n(&exp))
+}
+const ACT_NAMES: [&str; 8] = ["nothing", "return Ok", "-", "stale cleanup (false)", "stale cleanup (cleaned)", "corrupt cleanup (false)", "corrupt cleanup (cleaned)", "spawn"];
+fn grace_json(c: &GraceCase, o: &GraceOutcome) -> serde_json::Value {
+    json!({"real_loop": "client (RIP_VERIF_ENSURE=1 rip: ensure_local_authority_with_paths on a scripted clock)", "live_pids": c.live,
+           "polls": c.polls.iter().enumerate().map(|(i, p)| json!({"clock_ms": o.now.get(i), "advance_ms": p.advance, "lock": p.lock.map(|(inst, owner, w)| json!({"instance": inst, "creator_pid": owner, "record_written": w})), "meta_pid": match &p.meta { MetaF::Absent => None, MetaF::Rec(m) => Some(*m) }, "endpoint_reachable": p.reach, "lock_removed_under_the_read": p.vanish,
+                "client_did": o.obs.get(i).map(|x| json!({"act": ACT_NAMES.get(x[0] as usize), "timed_out": x[1], "lock_code_after": x[2], "meta_code_after": x[3]})), "points": o.trace.get(i)})).collect::<Vec<_>>(),
+           "result": o.result})
+}
+
+/// independent oracle for a scripted client run: nothing of a live pid is renamed / removed — except the still-unwritten
+/// lock of a starter that this client has seen invalid, the same instance at every poll, for more than the grace period
+fn grace_oracle(c: &GraceCase, o: &GraceOutcome) -> Option<(String, String)> {
+    if let Some(b) = &o.broken {
+        return Some((b.clone(), "panic".into()));
+    }
+    // since when (scripted clock) the instance now at the lock path has been there, unwritten, at every poll
+    let mut invalid_since: Option<(u64, u64)> = None; // (instance, clock)
+    for (i, p) in c.polls.iter().enumerate() {
+        let (Some(x), Some(now)) = (o.obs.get(i), o.now.get(i)) else { break };
+        match p.lock {
+            Some((inst, _, false)) if p.meta == MetaF::Absent && !p.vanish => {
+                if invalid_since.map(|(j, _)| j) != Some(inst) {
+                    invalid_since = Some((inst, *now));
+                }
+            }
+            _ => invalid_since = None,
+        }
+        if let Some((inst, owner, written)) = p.lock {
+            let gone = x[2] == 0 && !p.vanish;
+            if gone && c.live.contains(&owner) {
+                if written {
+                    return Some((format!("poll {i} (clock {now} ms): the client renamed lock.json carrying the record of LIVE pid {owner}"), "client_loop_takes_lock_of_live_pid".into()));
+                }
+                let seen_for = invalid_since.filter(|(j, _)| *j == inst).map(|(_, t)| now - t).unwrap_or(0);
+                if seen_for <= 1000 {
+                    return Some((format!("poll {i} (clock {now} ms): the client renamed the still-unwritten lock.json of LIVE starter {owner} (instance {inst}) that it had seen for {seen_for} ms — the 1 s grace period counts from an earlier, different lock"), "client_loop_cleans_invalid_lock_before_grace_of_this_instance".into()));
+                }
+            }
+        }
+        if p.lock.is_some() && x[2] == 0 {
+            invalid_since = None; // cleaned (or vanished): whatever comes next is another lock
+        }
+        if let MetaF::Rec(m) = p.meta {
+            if c.live.contains(&m) && x[3] != 2 + m {
+                return Some((format!("poll {i} (clock {now} ms): the client removed meta.json of LIVE pid {m}"), "client_loop_takes_meta_of_live_pid".into()));
+            }
+        }
+    }
+    None
+}
+
+fn seen_invalid(p: &PollIn) -> bool {
+    p.meta == MetaF::Absent && !p.vanish && matches!(p.lock, Some((_, _, false)))
+}
+
+fn grace_corpus() -> Vec<(&'static str, GraceCase)> {
+    let p = |advance: u64, lock: Option<(u64, u64, bool)>| PollIn { advance, lock, meta: MetaF::Absent, reach: false, vanish: false };
+    let pm = |advance: u64, lock: Option<(u64, u64, bool)>, meta: MetaF| PollIn { advance, lock, meta, reach: false, vanish: false };
+    let mut v = vec![];
+    // seed C18-6: starter X (101) unwritten, X readable for > 1 s, the lock changes hands, starter Y's (102) still-empty lock
+    v.push(("three_phase_two_starters", GraceCase { live: vec![101, 102], polls: vec![p(0, Some((1, 101, false))), p(0, Some((1, 101, false))), p(600, Some((1, 101, true))), p(600, Some((1, 101, true))), p(600, Some((1, 101, true))), p(0, Some((2, 102, false))), p(300, Some((2, 102, false))), p(300, Some((2, 102, true)))] }));
+    // S25: the unwritten lock of a dead starter vanishes under the client's read, then a live starter's fresh lock
+    v.push(("vanished_then_fresh_starter", GraceCase { live: vec![102], polls: vec![p(0, Some((1, DEAD, false))), PollIn { advance: 500, lock: Some((1, DEAD, false)), meta: MetaF::Absent, reach: false, vanish: true }, p(600, Some((2, 102, false))), p(100, Some((2, 102, true)))] }));
+    // OUTSIDE the hypothesis `stable_polls` (open finding S13b's family: another contender's corrupt cleanup + a new exclusive
+    // create, both between two polls of this client): the timer runs on from the dead starter's lock to the live starter's
+    v.push(("unobserved_instance_switch", GraceCase { live: vec![102], polls: vec![p(0, Some((1, DEAD, false))), p(1100, Some((2, 102, false)))] }));
+    // the legitimate cleanup: a dead starter's empty lock, watched for more than a second
+    v.push(("dead_half_cleaned_after_grace", GraceCase { live: vec![], polls: vec![p(0, Some((1, DEAD, false))), p(400, Some((1, DEAD, false))), p(700, Some((1, DEAD, false))), p(0, None)] }));
+    // MIXED leftovers, static over several polls (the client must leave a live pid's file alone, whatever the other file says)
+    for (name, lock, meta, live) in [
+        ("live_lock_dead_meta", Some((1, BYST, true)), MetaF::Rec(DEAD), vec![BYST]),
+        ("dead_lock_live_meta", Some((1, DEAD, true)), MetaF::Rec(BYST), vec![BYST]),
+        ("live_lock_no_meta", Some((1, BYST, true)), MetaF::Absent, vec![BYST]),
+        ("live_half_no_meta", Some((1, BYST, false)), MetaF::Absent, vec![BYST]),
+        ("live_half_dead_meta", Some((1, BYST, false)), MetaF::Rec(DEAD), vec![BYST]),
+        ("live_lock_other_live_meta", Some((1, BYST, true)), MetaF::Rec(102), vec![BYST, 102]),
+        ("dead_lock_other_dead_meta", Some((1, DEAD, true)), MetaF::Rec(DEAD2), vec![]),
+        ("dead_meta_only", None, MetaF::Rec(DEAD), vec![]),
+    ] {
+        v.push((name, GraceCase { live, polls: (0..6).map(|i| pm([0, 100, 300, 300, 200, 50][i], lock, meta.clone())).collect() }));
+    }
+    v
+}
+
+fn random_grace_case(r: &mut Rng) -> GraceCase {
+    let live = match r.below(4) { 0 => vec![101], 1 => vec![101, 102], 2 => vec![BYST, 102], _ => vec![101, 102, BYST] };
+    let owners = [101u64, 102, BYST, DEAD, DEAD2];
+    let n = r.range(3, 9) as usize;
+    let mut polls: Vec<PollIn> = vec![];
+    let mut inst = 1u64;
+    let mut cur: Option<(u64, u64, bool)> = None;
+    for _ in 0..n {
+        // the lock path: mostly evolves as real locks do (created empty, written, removed), sometimes jumps
+        cur = match (cur, r.below(10)) {
+            (Some((i, o, false)), 0..=3) => Some((i, o, false)),
+            (Some((i, o, false)), 4..=6) => Some((i, o, true)),
+            (Some((i, o, true)), 0..=5) => Some((i, o, true)),
+            (_, 7) => None,
+            _ => {
+                inst += 1;
+                Some((inst, *r.pick(&owners), r.chance(1, 3)))
+            }
+        };
+        let meta = match r.below(8) { 0 => MetaF::Rec(DEAD), 1 => MetaF::Rec(*r.pick(&owners)), _ => MetaF::Absent };
+        let mut p = PollIn { advance: *r.pick(&[0u64, 0, 50, 300, 700, 1100, 2500]), lock: cur, meta, reach: r.chance(1, 12), vanish: cur.is_some() && r.chance(1, 10) };
+        // a change of hands is OBSERVED (hypothesis `stable_polls` of c18_client_grace_resets): two consecutive polls that both
+        // see an unwritten lock see the same instance.  (The excluded scripts are the corpus case unobserved_instance_switch.)
+        if let Some(q) = polls.last() {
+            if seen_invalid(q) && seen_invalid(&p) && q.lock.map(|x| x.0) != p.lock.map(|x| x.0) {
+                p.lock = q.lock;
+                cur = q.lock;
+            }
+        }
+        polls.push(p);
+    }
+    GraceCase { live, polls }
 }
 
 /// "release on drop" ties "is the authority" to "holds the lock": a real `rip serve` with a request in flight is told to
@@ -1283,7 +1732,7 @@ fn main() {
             Drv::Script(_) => Drv::Script(vec![Call::ReadLock, Call::Live(dead), Call::Live(me), Call::Stale(dead), Call::Acquire]),
             d => d,
         };
-        let c = Case { lock: LockF::Rec(dead), meta: MetaF::Rec(dead), bystander: None, cont: vec![Contender { pid: me, drv }], assume_grace: true, real_pids: true };
+        let c = Case { lock: LockF::Rec(dead), meta: MetaF::Rec(dead), bystander: None, bystander_guard: true, cont: vec![Contender { pid: me, drv }], assume_grace: true, real_pids: true };
         // pid_max is small on this box and every builder spawns threads: if the reaped pid has been handed out again
         // (before or during the run) the case says nothing about rip — skip it instead of alarming
         let is_dead = |p: u64| matches!(ripd::pid_liveness(p as u32), PidLiveness::Dead);
@@ -1304,10 +1753,10 @@ fn main() {
     let search = thorough && a.oracle_only();
     let cap = if search { 60 } else if thorough { 400 } else { 12 };
     let sc = scripts();
-    for (_, lock, meta, by) in leftovers() {
+    for (_, lock, meta, by, by_guard) in leftovers() {
         for i in 0..sc.len() {
             for j in i..sc.len() {
-                let c = Case { lock: lock.clone(), meta: meta.clone(), bystander: by, cont: vec![Contender { pid: 101, drv: Drv::Script(sc[i].clone()) }, Contender { pid: 102, drv: Drv::Script(sc[j].clone()) }], assume_grace: true, real_pids: false };
+                let c = Case { lock: lock.clone(), meta: meta.clone(), bystander: by, bystander_guard: by_guard, cont: vec![Contender { pid: 101, drv: Drv::Script(sc[i].clone()) }, Contender { pid: 102, drv: Drv::Script(sc[j].clone()) }], assume_grace: true, real_pids: false };
                 let mut outs = vec![];
                 explore(&c, cap, 0, |_, o| outs.push(o));
                 for o in outs {
@@ -1318,9 +1767,9 @@ fn main() {
     }
     // 4. loops against loops: server/server, server/client over every leftover, DFS capped (grace bit on)
     let cap2 = if search { 40 } else if thorough { 300 } else { 10 };
-    for (_, lock, meta, by) in leftovers() {
+    for (_, lock, meta, by, by_guard) in leftovers() {
         for (d1, d2) in [(Drv::Server, Drv::Server), (Drv::Server, Drv::Client), (Drv::Client, Drv::Client)] {
-            let c = Case { lock: lock.clone(), meta: meta.clone(), bystander: by, cont: vec![Contender { pid: 101, drv: d1.clone() }, Contender { pid: 102, drv: d2.clone() }], assume_grace: true, real_pids: false };
+            let c = Case { lock: lock.clone(), meta: meta.clone(), bystander: by, bystander_guard: by_guard, cont: vec![Contender { pid: 101, drv: d1.clone() }, Contender { pid: 102, drv: d2.clone() }], assume_grace: true, real_pids: false };
             let mut outs = vec![];
             // deadline bit set: every loop gives up instead of spinning; grace bit set
             explore(&c, cap2, 6, |_, o| outs.push(o));
@@ -1350,7 +1799,7 @@ fn main() {
                 if idle {
                     cont.push(Contender { pid: 102, drv: Drv::Server });
                 }
-                let c = Case { lock: lock.clone(), meta: meta.clone(), bystander: None, cont, assume_grace: true, real_pids: false };
+                let c = Case { lock: lock.clone(), meta: meta.clone(), bystander: None, bystander_guard: true, cont, assume_grace: true, real_pids: false };
                 let mut pol = |_p: usize, _st: &[usize], pcs: &[u64]| if pcs[0] == 21 || pcs[0] == 0 { None } else { Some(Ev::Step(0, 2)) };
                 let o = run_case(&c, &mut pol, 40);
                 let n = c.cont.len();
@@ -1373,7 +1822,7 @@ fn main() {
         }
     }
     for meta in [MetaF::Rec(DEAD), MetaF::Rec(DEAD2)] {
-        let c = Case { lock: LockF::Absent, meta: meta.clone(), bystander: None, cont: vec![Contender { pid: 101, drv: Drv::Client }], assume_grace: true, real_pids: false };
+        let c = Case { lock: LockF::Absent, meta: meta.clone(), bystander: None, bystander_guard: true, cont: vec![Contender { pid: 101, drv: Drv::Client }], assume_grace: true, real_pids: false };
         let mut pol = |_p: usize, _st: &[usize], _pcs: &[u64]| Some(Ev::Step(0, 0));
         let o = run_case(&c, &mut pol, 40);
         // pc 10 = lock-exists test of the no-meta branch, pc 25 = the same test in the meta branch (fix S24): with no lock both spawn
@@ -1393,6 +1842,62 @@ fn main() {
             });
         }
     }
+    // 6b. the REAL client loop (rip binary, RIP_VERIF_ENSURE driver) on a scripted clock against scripted lock / meta states:
+    //     compared poll by poll with Model/AuthorityGrace.v (client_run full_table), judged by grace_oracle
+    let mut wg = CaseWriter::new(&a.out.join("grace"), "Model.AuthorityGrace", "check_case", "model_obs", 150).with_base(100_000);
+    let rip = rip_bin();
+    if rip.exists() {
+        let mut cases: Vec<(String, GraceCase)> = grace_corpus().into_iter().map(|(n, c)| (n.to_string(), c)).collect();
+        let ngrace = if search { 600 } else if thorough { 3000 } else { 150 };
+        for _ in 0..ngrace {
+            cases.push(("random".to_string(), random_grace_case(&mut r)));
+        }
+        for (tag, c) in cases {
+            let o = run_grace_case(&rip, &c);
+            res.evaluations += 1;
+            res.oracle_checks += 1;
+            res.bump(&format!("kind=client_scripted_{}", if tag == "random" { "random" } else { "corpus" }));
+            res.bump(&format!("client_polls={}", o.obs.len()));
+            for x in &o.obs {
+                res.bump(&format!("client_act={}", x[0]));
+            }
+            let id = if write_cases { wg.push(coq_grace_case(&c, &o)) as i64 } else { 100_000 + res.evaluations as i64 };
+            if write_cases && res.case_index.len() < 3400 {
+                res.case_index.insert(id.to_string(), grace_json(&c, &o));
+            }
+            if o.obs.len() >= 3 {
+                distinct.add(&format!("{:?}", c));
+            }
+            if tag == "unobserved_instance_switch" {
+                match grace_oracle(&c, &o) {
+                    Some((what, _)) => res.notes.push(format!("{tag}: expected outcome outside the hypothesis stable_polls (S13b family): {what}")),
+                    None => res.notes.push(format!("{tag}: the script outside stable_polls did NOT make the client clean the live starter's lock")),
+                }
+                continue;
+            }
+            if let Some((what, class)) = grace_oracle(&c, &o) {
+                // shrink the poll script while the same class keeps failing
+                let cls = class.clone();
+                let live = c.live.clone();
+                let polls = shrink_vec(c.polls.clone(), |ps| {
+                    let c2 = GraceCase { live: live.clone(), polls: ps.to_vec() };
+                    grace_oracle(&c2, &run_grace_case(&rip, &c2)).map(|x| x.1) == Some(cls.clone())
+                });
+                let c2 = GraceCase { live: c.live.clone(), polls };
+                let o2 = run_grace_case(&rip, &c2);
+                let what2 = grace_oracle(&c2, &o2).map(|x| x.0).unwrap_or(what);
+                res.bump(&format!("finding={class}"));
+                if res.oracle_violations.iter().filter(|v| v.class == class).count() < 3 {
+                    res.oracle_violations.push(OracleViolation { case_id: id, what: format!("{tag}: {what2}"), class, replay: grace_json(&c2, &o2) });
+                } else {
+                    res.oracle_violations.push(OracleViolation { case_id: id, what: String::new(), class, replay: json!(null) });
+                }
+            }
+        }
+    } else {
+        res.notes.push(format!("rip binary not found at {} — scripted client loop not exercised", rip.display()));
+    }
+    wg.flush();
     // 7.-9. the real driver loops and the real shutdown path (wall-clock, a few seconds)
     unsafe { prctl(36 /* PR_SET_CHILD_SUBREAPER */, 1, 0, 0, 0) };
     real_server_loop(&mut res);
@@ -1404,7 +1909,7 @@ fn main() {
         res.bump_by(&format!("pc={p}"), n);
     }
     res.distinct_nontrivial = distinct.count();
-    res.case_files = w.files.iter().map(|p| p.display().to_string()).collect();
+    res.case_files = w.files.iter().chain(wg.files.iter()).map(|p| p.display().to_string()).collect();
     res.write(&a.out);
     println!("c18: {} cases, {} distinct non-trivial, {} oracle violations", res.evaluations, res.distinct_nontrivial, res.oracle_violations.len());
 }
